@@ -257,6 +257,18 @@ def gen_aliasx_cases(table, inv):
     return cs
 
 
+def gen_ffff_cases(table, inv):
+    """U+FFFF (a legal name character, and the padding value of long-name slots) at the end / start / middle of names whose
+    length is and is not a multiple of 13 (no terminator is stored at a multiple of 13)"""
+    cs = []
+    F = "\uffff"
+    for L in (1, 2, 12, 13, 14, 25, 26, 27, 38, 39, 40, 52, 247, 248, 255):
+        for n in ("a" * (L - 1) + F, "a" * max(0, L - 2) + F * min(2, L), F + "b" * (L - 1), "c" * (L // 2) + F + "c" * (L - L // 2 - 1), F * min(L, 13) + "d" * max(0, L - 13)):
+            if 1 <= len(n) <= 255:
+                cs.append(Case(n, "file", [n, n + "x", n[:-1] if len(n) > 1 else "q"], "ffff"))
+    return cs
+
+
 def gen_dotspace_cases(table, inv):
     cs = []
     def rec(p, d):
@@ -594,13 +606,14 @@ def run(rep, tier, seed):
         if variant == "default":
             streams = [("len", lens, CONFS[0]), ("ascii", asc, CONFS[0]), ("dots", dots, CONFS[0]), ("case", cases, CONFS[0]),
                        ("aliasx", gen_aliasx_cases(table, inv), CONFS[0]), ("aliasx32", gen_aliasx_cases(table, inv), CONFS[2]),
+                       ("ffff", gen_ffff_cases(table, inv), CONFS[0]), ("ffff32", gen_ffff_cases(table, inv), CONFS[2]),
                        ("bmp", gen_scalar_cases(tier, rng, table, inv), CONFS[0]),
                        ("random", gen_random_cases(tier, rng, table, inv), CONFS[1]),
                        ("len16", lens[::3], CONFS[1]), ("dots32", dots, CONFS[2]), ("ascii32", asc[::2], CONFS[2])]
             if tier == "thorough":
                 streams += [("case16", cases, CONFS[1]), ("len32", lens, CONFS[2])]
         else:
-            streams = [("case", cases, CONFS[0]), ("ascii", asc[::2], CONFS[0]), ("len", lens[::5], CONFS[0]), ("aliasx", gen_aliasx_cases(table, inv), CONFS[0]),
+            streams = [("case", cases, CONFS[0]), ("ascii", asc[::2], CONFS[0]), ("len", lens[::5], CONFS[0]), ("aliasx", gen_aliasx_cases(table, inv), CONFS[0]), ("ffff", gen_ffff_cases(table, inv), CONFS[0]),
                        ("random", gen_random_cases("quick", rng, table, inv)[::3 if tier == "quick" else 1], CONFS[2])]
         for tag, cs, conf in streams:
             # keep scripts moderate: chunks of 20000 cases
